@@ -2,25 +2,27 @@
 from pyvc.runner import func
 
 ID = "C15"
+WINDOWED = ["WeighInvVol", "WeighERC", "WeighMeanVar", "TargetVol", "PTE_Rebalance"]
 META = {
     "assumptions": ["A-PANDAS", "A-EXT", "A-TIME", "A-T", "A-SOLVER", "A-ENGINE"],
-    "explanation": "The real __call__ bodies of WeighEqually (1/n on exactly the selection, {} when empty), ScaleWeights (same keys, each scale*w), WeighTarget (the non-missing targets of the row dated now, False "
+    "explanation": "The real __call__ bodies of WeighEqually (1/n on exactly the selection, {} when empty), WeighSpecified (a fresh copy of the specified dict: later in-place edits of temp['weights'] cannot reach the stored targets), ScaleWeights (same keys, each scale*w), WeighTarget (the non-missing targets of the row dated now, False "
     "off-date) and LimitDeltas (for stacks of any size: every key's change capped at its limit towards the target, keys within their limit untouched, loop cut at an invariant over the set iteration) are executed over a "
     "string-keyed dict / Series model and proved at skolem labels; lemmas: equal weights sum to one, a capped change moves towards the target by exactly the limit, TargetVol's scaling reaches the target volatility "
-    "(two-asset quadratic form), a cap below 1/n is infeasible. Read windows and lags of the risk-based weighters are proved confined in C04. The numerical relations delivered by ffn/sklearn (inverse-vol, ERC, "
+    "(two-asset quadratic form), a cap below 1/n is infeasible. The estimation window of every risk-based weigher (WeighInvVol, WeighERC, WeighMeanVar, TargetVol, PTE_Rebalance) is proved to be exactly universe.loc[now-lag-lookback : now-lag] on the real body (tolerant symbolic execution, numerics abstracted); that it never reaches past now is C04. The numerical relations delivered by ffn/sklearn (inverse-vol, ERC, "
     "mean-variance, random weights, limit_weights) and the TargetVol / PTE_Rebalance glue are exercised only by a bounded stand-in on the real algos against numpy recomputations.",
 }
 MANIFEST_ENTRY = {
     "level_text": "Deductive proof for the direct weighters and LimitDeltas for all selections, dicts and limits; algebraic lemmas for the scaling algos; optimiser-backed weighters bounded only.",
     "level_note": "ffn.calc_inv_vol_weights / calc_erc_weights / calc_mean_var_weights / limit_weights / random_weights and sklearn's Ledoit-Wolf are assumed contracts (A-EXT), audited numerically by the bounded stand-in, never proved; "
-    "WeighSpecified, LimitWeights, TargetVol, PTE_Rebalance bodies are not under contract (numpy/pandas glue) - bounded only.",
+    "LimitWeights, TargetVol, PTE_Rebalance bodies are not under contract (numpy/pandas glue) - bounded only.",
     "technique": "contract-based deductive verification over a dict/Series model (pyvc VCs + z3, loop invariant for LimitDeltas) + algebraic lemmas; bounded numeric stand-in for third-party optimisers",
 }
 
 
 def tasks(tier, seed):
     return [
-        func("bt.algos.WeighEqually.__call__"), func("bt.algos.ScaleWeights.__call__"), func("bt.algos.WeighTarget.__call__"), func("bt.algos.LimitDeltas.__call__"),
+        func("bt.algos.WeighEqually.__call__"), func("bt.algos.ScaleWeights.__call__"), func("bt.algos.WeighTarget.__call__"), func("bt.algos.WeighSpecified.__call__"), func("bt.algos.LimitDeltas.__call__"),
+        *[dict(kind="custom", module="props.c04_tasks", fn="confinement_task", cls=c, windows=True) for c in WINDOWED],
         dict(kind="custom", module="props.lemmas", fn="c15_weight_lemmas"),
         dict(kind="custom", module="props.bounded", fn="run_script", script="c15_weights", seed=seed, n=6 if tier == "quick" else 120, props=["C15"]),
     ]
